@@ -10,8 +10,8 @@
    compiler output through the very definitions the theorems are about. *)
 From Coq Require Import List ZArith Bool String PrimFloat.
 From PV Require Import IC10.Values IC10.Machine IC10.MachineProofs IC10.FloatAlg IC10.FloatFacts
-                       Src.Sem Valid.Diff Valid.DiffProofs Model.Fold Model.Tables.
-From PVGen Require Import GenOps.
+                       Src.Sem Valid.Diff Valid.DiffProofs Model.Fold Model.Tables Model.ForRange.
+From PVGen Require Import GenOps GenForRange.
 Import ListNotations.
 Local Open Scope string_scope.
 
@@ -68,3 +68,29 @@ Proof. exact cmp_neg_correct. Qed.
 Theorem C01_negated_branch_nan_refuted :
   exists x y, fcmp (cmp_neg Clt) x y = false /\ fcmp Clt x y = false.
 Proof. exact cmp_neg_nan_refuted. Qed.
+
+(* (4) `for v in range(start, stop, step)`: the exit branch, the direction test, the increment and the
+   back jump are re-read from handle_for on every run ... *)
+Theorem C01_for_range_lowering_as_modelled :
+  test_of_opcode gen_for_branch_increasing = Some TGe /\ test_of_opcode gen_for_branch_decreasing = Some TLe /\
+  gen_for_branch_operands = "[iter_sym, end, end_label]" /\
+  gen_for_direction_test = "args[2]._ndata.constant_value >= 0" /\ gen_for_default_increasing = true /\
+  gen_for_tail = [("f'{cont_label}:'", "", ""); ("add", "[iter_sym, step]", "iter_sym"); ("j", "[for_label]", ""); ("f'{end_label}:'", "", "")].
+Proof. repeat split; reflexivity. Qed.
+
+(* ... and with those branches the loop visits exactly Python's range(start, stop, step) (CPython's
+   length formula), for EVERY start, stop and constant step > 0, resp. < 0 *)
+Theorem C01_for_range_increasing : forall a b s t, (0 < s)%Z ->
+  test_of_opcode gen_for_branch_increasing = Some t ->
+  forall fuel, (Z.to_nat (range_len a b s) < fuel)%nat -> loop t a b s fuel = py_range a b s.
+Proof.
+  intros a b s t Hs Ht fuel Hf. assert (t = TGe) as -> by (cbn in Ht; congruence).
+  exact (loop_up_is_range _ a b s Hs eq_refl fuel Hf).
+Qed.
+Theorem C01_for_range_decreasing : forall a b s t, (s < 0)%Z ->
+  test_of_opcode gen_for_branch_decreasing = Some t ->
+  forall fuel, (Z.to_nat (range_len a b s) < fuel)%nat -> loop t a b s fuel = py_range a b s.
+Proof.
+  intros a b s t Hs Ht fuel Hf. assert (t = TLe) as -> by (cbn in Ht; congruence).
+  exact (loop_down_is_range _ a b s Hs eq_refl fuel Hf).
+Qed.
